@@ -41,8 +41,20 @@ def line_ok(c, s):
         if s.endswith(r):
             pre = s[:len(s) - len(r)]
             if PREFIX_RE.match(pre) and (kk == 0 or "\t" in pre):
-                return kk, width(pre) - kk
+                return kk, width(pre) - kk - origin(pre)
     return -1, 0
+
+
+def origin(pre):
+    """physical column at which the innermost block quote's content starts on this line (0 outside quotes): a quote marker may be
+    indented 0-3 columns and may or may not be followed by its optional space, so this origin differs from line to line"""
+    j = pre.rfind(">")
+    if j < 0:
+        return 0
+    col = width(pre[:j + 1])
+    if j + 1 < len(pre) and pre[j + 1] in " \t":
+        col += 1
+    return col
 
 
 def width(s):
@@ -104,6 +116,10 @@ def check(src, toks, ctx=None):
                     cnt("fence.unclosed_eof")
             else:
                 sl = lines[b:e]
+            if len(sl) == len(cl) + 1 and e == N and not ends_nl and sl[-1].strip(" \t>") == "" and c.endswith("\n"):
+                # the block's last line is the (content-less) last line of an input without final newline: it contributes an
+                # empty content line that has no line feed of its own
+                cl = cl + [""]
             if len(sl) != len(cl):
                 errs.append((ty + "-linecount", f"{ty} content has {len(cl)} lines but map={m} gives {len(sl)}: {c!r}"))
                 continue
@@ -119,8 +135,9 @@ def check(src, toks, ctx=None):
                     cols.append((icol, k > 0 or ci[0] == " " or ty == "code_block", ci, si))
             else:
                 cnt("recon." + ty)
-                # column consistency: all lines of one verbatim block lose the same indentation column I; a line that kept
-                # leading spaces (or got them from a partially consumed tab) must have lost exactly I columns
+                # column consistency: relative to the innermost quote's content origin on each line, all lines of one verbatim block
+                # lose the same indentation column I; a line that kept leading spaces (or got them from a partially consumed
+                # tab) must have lost exactly I columns
                 if cols:
                     imax = max(c0 for c0, _, _, _ in cols)
                     for c0, strict, ci, si in cols:
